@@ -299,6 +299,10 @@ def explore(prop, tier, seed, log):
             r["errors"].append(f"harness exited with {rc}: {err[-300:]}")
         hl = out.split("\n")
         r["cases"] = case_lines
+        rc2, out2, err2 = run_harness(["cases", prop, tier, str(seed)])
+        if rc2 != 0:
+            r["errors"].append(f"harness scenarios exited with {rc2}: {err2[-300:]}")
+        hl += [l for l in out2.split("\n") if l.startswith(("ORACLE ", "STAT "))]
     else:
         rc, out, err = run_harness(["cases", prop, tier, str(seed)])
         if rc != 0:
